@@ -243,6 +243,68 @@ namespace {
                }
                offer("xpr_stmt", "deep " + kind + " x" + std::to_string(depth), "", [cur](ipr::Printer& pp) { pp << ipr::xpr_stmt(*cur); });
             }
+         // graphs that refer back to themselves: a class (enum, namespace) whose member names the class as its type, as the
+         // pointee of its type, as its initializer, or as the default of a template parameter; a function whose parameter's default
+         // is the function; an alias of the namespace it sits in.  Names refer, they do not contain: printing must end.
+         {
+            auto& gr = *z.mk.w.unit.global_region();
+            int knot = 0;
+            auto nm = [&](const char* pre) -> const ipr::Name& { return lex.get_identifier(vh::u8(std::string(pre) + std::to_string(++knot))); };
+            auto named_class = [&](const char* pre) {
+               auto c = lex.make_class(gr);
+               auto d = gr.declare_type(nm(pre), lex.class_type());
+               c->id = &d->name();
+               d->init = c;
+               return std::pair{ c, d };
+            };
+            std::vector<std::pair<std::string, const ipr::Decl*>> knots;
+            { auto [c, d] = named_class("SelfField"); c->declare_field(nm("f"), *c); knots.push_back({"class with a field of its own type", d}); }
+            { auto [c, d] = named_class("SelfPtr"); c->declare_field(nm("f"), lex.get_pointer(*c)); knots.push_back({"class with a pointer to itself", d}); }
+            { auto [c, d] = named_class("SelfInit"); auto v = c->body.declare_var(nm("v"), lex.int_type()); v->init = c; knots.push_back({"class with a member initialised by the class", d}); }
+            { auto [c, d] = named_class("SelfInitDecl"); auto v = c->body.declare_var(nm("v"), lex.int_type()); v->init = d; knots.push_back({"class with a member initialised by the class's declaration", d}); }
+            {
+               auto [c, d] = named_class("SelfDefault");
+               auto m = lex.make_mapping(c->body, ipr::Mapping_level{1});
+               auto p = m->param(nm("T"), lex.typename_type());
+               p->init = c;
+               m->body = lex.make_literal(lex.int_type(), u8"0");
+               impl::Warehouse<ipr::Type> wh; wh.push_back(lex.typename_type());
+               auto& fa = lex.get_forall(lex.get_product(wh), lex.int_type());
+               auto t = c->body.declare_primary_template(nm("h"), fa);
+               t->init = m;
+               knots.push_back({"class with a member template whose parameter defaults to the class", d});
+            }
+            {
+               auto e = lex.make_enum(gr, ipr::Enum::Kind::Scoped);
+               auto d = gr.declare_type(nm("SelfEnum"), lex.enum_type());
+               e->id = &d->name(); d->init = e;
+               e->add_member(nm("e"))->init = e;
+               knots.push_back({"enumeration with an enumerator initialised by the enumeration", d});
+            }
+            {
+               auto ns = lex.make_namespace(gr);
+               auto d = gr.declare_type(nm("SelfNs"), lex.namespace_type());
+               ns->id = &d->name(); d->init = ns;
+               ns->body.scope.make_alias(nm("A"), *ns);
+               knots.push_back({"namespace with an alias of itself", d});
+            }
+            {
+               impl::Warehouse<ipr::Type> wh; wh.push_back(lex.int_type());
+               auto& ft = lex.get_function(lex.get_product(wh), lex.int_type());
+               auto f = gr.declare_fun(nm("selffun"), ft);
+               auto m = lex.make_mapping(gr, ipr::Mapping_level{0});
+               m->param(nm("x"), lex.int_type())->init = f;
+               m->body = lex.make_block(m->parameters().region());
+               static_cast<std::variant<impl::Parameter_list*, impl::Mapping*>&>(f->data) = m;
+               knots.push_back({"function whose parameter defaults to the function", f});
+            }
+            for (auto& k : knots) {
+               auto d = k.second;
+               offer("xpr_decl", "knot: " + k.first, "", [d](ipr::Printer& pp) { pp << ipr::xpr_decl(*d); });
+               offer("xpr_stmt", "knot: " + k.first, "", [d](ipr::Printer& pp) { pp << ipr::xpr_stmt(*d); });
+               offer("xpr_expr", "knot: " + k.first, "", [d](ipr::Printer& pp) { pp << ipr::xpr_expr(*d); });
+            }
+         }
          auto blk = lex.make_block(*z.mk.w.unit.global_region());
          blk->add_stmt(*lex.make_break());
          blk->add_stmt(*lex.make_if(cond(), *lex.make_break()));
